@@ -1563,9 +1563,9 @@ Proof.
   apply cpres_bind; [apply cpres_first_real|]. intros r.
   apply cpres_same. intros s. destruct (real_tree s r); reflexivity.
 Qed.
-Lemma cpres_open_ro p : cpres (do_open p OF_R).
+Lemma cpres_open_ro p fl : of_readonly fl = true -> cpres (do_open p fl).
 Proof.
-  unfold do_open. cbn [of_readonly of_trunc].
+  intros Hro. unfold do_open. rewrite Hro, (ro_not_trunc fl Hro).
   apply cpres_bind; [apply cpres_lookup_node|]. intros _.
   apply cpres_bind; [apply cpres_get_node|]. intros n. apply cpres_if; [apply cpres_fail|].
   apply cpres_bind; [apply cpres_ret|]. intros _.
@@ -1584,12 +1584,12 @@ Proof.
   - apply cpres_bind; [apply cpres_walk|]; intros _. apply cpres_bind; [apply cpres_lookup_node|]; intros _.
     apply cpres_bind; [apply cpres_get_node|]. intros n. apply cpres_if; [apply cpres_fail|].
     apply cpres_bind; [apply cpres_stat_node|]. intros st. apply cpres_if; [apply cpres_fail|apply cpres_ret].
-  - apply cpres_bind; [apply cpres_walk|]; intros _. apply cpres_bind; [apply cpres_open_ro|]. intros r.
+  - apply cpres_bind; [apply cpres_walk|]; intros _. apply cpres_bind; [apply cpres_open_ro; reflexivity|]. intros r.
     apply cpres_same. intros s. destruct (real_tree s r) as [[]|]; reflexivity.
   - apply cpres_bind; [apply cpres_walk|]; intros _. apply cpres_bind; [apply cpres_node_checked|]; intros _.
     apply cpres_bind; [apply cpres_first_tree|]. intros rt. destruct (snd rt); try apply cpres_fail. apply cpres_ret.
-  - destruct fl; cbn [of_readonly negb] in Hro; try discriminate.
-    apply cpres_bind; [apply cpres_walk|]; intros _. apply cpres_bind; [apply cpres_open_ro|]. intros r. apply cpres_ret.
+  - assert (Hro' : of_readonly fl = true) by (destruct (of_readonly fl); [reflexivity|discriminate Hro]).
+    apply cpres_bind; [apply cpres_walk|]; intros _. apply cpres_bind; [apply cpres_open_ro; exact Hro'|]. intros r. apply cpres_ret.
   - apply cpres_bind; [apply cpres_walk|]; intros _. apply cpres_bind; [apply cpres_node_checked|]; intros _.
     apply cpres_bind; [apply cpres_first_tree|]. intros rt. destruct (afind k (xs_of (snd rt))); [apply cpres_ret|apply cpres_fail].
   - apply cpres_bind; [apply cpres_walk|]; intros _. apply cpres_bind; [apply cpres_node_checked|]; intros _.
@@ -2430,7 +2430,7 @@ Proof.
   destruct t.
   - destruct (of_readonly fl); inversion Hrun; subst; (split; [exact HC2|]); [intros r0 H0 Hf; discriminate|discriminate].
   - unfold bind at 1 in Hrun. destruct (of_trunc fl) eqn:Et.
-    + assert (Hf : of_readonly fl = false) by (destruct fl; try discriminate; reflexivity).
+    + assert (Hf : of_readonly fl = false) by (apply of_trunc_not_readonly; exact Et).
       rewrite (Hl0 Hf) in Hrun.
       destruct (mutate 0 (h_setdata (r_path r) (fun _ => [])) s2) as [r2 s3] eqn:Em.
       pose proof (mutate0_safe _ s2 r2 s3 (shape_safe_setdata _ _) HC2 Em) as HC3.
